@@ -1770,6 +1770,10 @@ impl<'a> Query<'a> {
         }
         s += self.querytype().as_str();
         s += " ";
+        if self.qualifier != QueryQualifier::Normal {
+            s += self.qualifier.as_str();
+            s += " ";
+        }
         if let Some(resulttype) = self.resulttype_as_str() {
             s += resulttype;
         }
